@@ -32,4 +32,46 @@ theorem C17_yaml_call_site (E : Env) (path : Str) (u svc : SUnit) (h : fromKube 
 /-- `absFromUnit` is `absolute_from` against the directory of the unit's path -/
 theorem C17_absFromUnit_eq (p x : Str) : absFromUnit p x = Pth.absoluteFromUnit [] p x := rfl
 
+/-! ### a path or a URL (D21) -/
+
+/-- what counts as a URL begins with one of four prefixes — nothing that merely begins with "http" or holds "github.com/" somewhere -/
+theorem C17_url_prefix (x : Str) (h : isUrl x = true) :
+    (s "http://").isPrefixOf x = true ∨ (s "https://").isPrefixOf x = true ∨ (s "git://").isPrefixOf x = true ∨ (s "github.com/").isPrefixOf x = true := by
+  unfold isUrl startsWith at h
+  simp only [List.any_cons, List.any_nil, Bool.or_false, Bool.or_eq_true, Bool.and_eq_true] at h
+  rcases h with h | h | h | h
+  · exact Or.inl h.1
+  · exact Or.inr (Or.inl h.1)
+  · exact Or.inr (Or.inr (Or.inl h.1))
+  · exact Or.inr (Or.inr (Or.inr h.1))
+
+example : isUrl (s "httpd/ctx") = false ∧ isUrl (s "https-proxy/Containerfile") = false ∧ isUrl (s "src/https://h/x") = false ∧
+    isUrl (s "vendor/github.com/u/r") = false ∧ isUrl (s "https://h/x") = true ∧ isUrl (s "github.com/u/r") = true := by decide
+
+/-- call site: a custom, relative `SetWorkingDirectory=` of a .build that is not a URL is always anchored — when the plan succeeds it
+    keeps the value as the build context *and* sets a working directory (which `swdPlan` computes from the unit's path alone), unless
+    the user chose a `[Service] WorkingDirectory=` of their own -/
+theorem C17_build_custom_anchored (unitPath : Str) (u : SUnit) (swd : Str)
+    (hl : lookup u (s "Build") (s "SetWorkingDirectory") = some swd) (hne : swd ≠ []) (hp : unitPath ≠ [])
+    (h1 : (lower swd == s "yaml") = false) (h2 : (lower swd == s "file") = false) (h3 : (lower swd == s "unit") = false)
+    (habs : isAbs swd = false) (hurl : isUrl swd = false)
+    (hwd : lookup u (s "Service") (s "WorkingDirectory") = none) (r : Str × Option Str)
+    (h : swdPlan unitPath u (s "Build") = .ok r) : r.1 = swd ∧ r.2.isSome = true := by
+  unfold swdPlan at h
+  have he : swd.isEmpty = false := by cases swd with | nil => exact absurd rfl hne | cons _ _ => rfl
+  have hpe : unitPath.isEmpty = false := by cases unitPath with | nil => exact absurd rfl hp | cons _ _ => rfl
+  simp only [hl, Option.getD_some, he, Bool.false_eq_true, if_false] at h
+  have ht : swdTarget unitPath u (s "Build") swd = .ok (swd, unitPath) := by
+    unfold swdTarget
+    simp [h1, h2, h3, habs]
+  rw [ht] at h
+  simp only [hpe, Bool.not_false, hurl, Bool.and_self, if_true, hwd, Option.map_none, Option.getD_none, Bool.false_eq_true, if_false] at h
+  split at h
+  · split at h
+    · cases h
+    · cases h; exact ⟨rfl, rfl⟩
+  · split at h
+    · cases h
+    · cases h; exact ⟨rfl, rfl⟩
+
 end Cv
